@@ -3,7 +3,7 @@
 # checks: patch applies; go build; go vet; full suite passes with the patch; demo fails with it; demo passes without.
 set -u
 export GOFLAGS=-mod=mod GOPROXY=off GOSUMDB=off GOTOOLCHAIN=local
-ID="$1"; K="$2"; SRC="/tmp/seed/out/$ID"; 
+ID="$1"; K="$2"; SRC="${SEED_SRC:-/tmp/seed/out}/$ID"; 
 W="$(mktemp -d /tmp/seedchk.XXXXXX)"; rmdir "$W"
 git -C /repo worktree add -q --detach "$W" HEAD || { echo "$ID m$K worktree-failed"; exit 0; }
 cleanup() { git -C /repo worktree remove --force "$W" >/dev/null 2>&1; rm -rf "$W"; }
